@@ -27,7 +27,7 @@ LEVEL = "exploration"
 def _tags_for_prog(v) -> list:
     m = {"pow": "pow-operator", "float-floordiv-or-mod": "float-modulo", "list-append-float": "list-append-float-expr"}
     tags = [m[t] for t in v["feat"] if t in m]
-    if langcheck.retyped(v["ty"]):
+    if langcheck.retyped(v["ty"], v.get("ty0")):
         tags.append("name-retyped")
     return tags
 
@@ -73,7 +73,7 @@ def check(run) -> None:
     st = Strata(run, "C06")
     snips = langgen.bin_snippets(langgen.family_cases("bin", run=run)) + langgen.expr_family() + langgen.assign_family() + langgen.list_family()
     snips += langgen.skel_snippets(langgen.family_cases("skel", 2, run), vectors=((1, 0, 1, 0, 1, 0),))
-    snips += langgen.tflow_snippets(langgen.family_cases("tflow", 2, run)) + langgen.fold_snippets() + langgen.list_routing_snippets()
+    snips += langgen.tflow_snippets(langgen.family_cases("tflow", 2, run)) + langgen.fold_snippets() + langgen.list_routing_snippets() + langgen.scope_fold_snippets()
     byid, singles = {}, []
     for s in snips:
         p = langgen.single(s)
